@@ -216,7 +216,7 @@ func (f *fuzzCtx) request() (Req, string) {
 		case 7:
 			hdr = append(hdr, [2]string{"X-Amz-Meta-" + f.pick("a", "B", "é"), strings.Repeat("m", rng.Intn(3000))})
 		case 8:
-			hdr = append(hdr, [2]string{"X-Amz-Date", f.pick("20200102T030405Z", "garbage", "")})
+			hdr = append(hdr, [2]string{"X-Amz-Date", f.pick("20200102T030405Z", "garbage", "", "20200102T031905Z", "20200102T032006Z", "20200102T024804Z", "20190102T030405Z", "99999999T999999Z", "20200102T030405+0100", "00000000T000000Z")})
 		case 9:
 			hdr = append(hdr, [2]string{"Content-Type", f.pick("", "application/xml", "multipart/form-data", "multipart/form-data; boundary=")})
 		}
@@ -316,15 +316,24 @@ func runC09(tier string, seed uint64) {
 	}
 	cfgs := []cfgT{{"default", SessOpts{}, ""}, {"auto", SessOpts{Auto: true}, ""}, {"nover", SessOpts{NoVer: true}, ""}, {"host", SessOpts{}, "host"}, {"failpage", SessOpts{FailPage: true}, ""},
 		// a server with a host-bucket base, addressed path-style (hosts that are not <bucket>.<base> fall back)
-		{"bases", SessOpts{}, "bases"}}
+		{"bases", SessOpts{}, "bases"},
+		// the request-time check switched on (every request is dated; the canaries carry the server's own time),
+		// and the CORS wrapper (every request names an origin)
+		{"skew", SessOpts{}, "skew"}, {"cors", SessOpts{}, "cors"}}
 	for _, kind := range allKinds {
 		for ci, cfg := range cfgs {
-			if kind != "mem" && ci > 1 && tier != "thorough" && !(cfg.host == "bases" && kind == "fsmem") {
+			if kind != "mem" && ci > 1 && tier != "thorough" && !(cfg.host == "bases" && kind == "fsmem") && !(cfg.host == "skew" && kind == "bolt") && !(cfg.host == "cors" && kind == "sfsmem") {
 				continue
 			}
 			s := newSess("c09", kind, cfg.o)
 			if cfg.host == "host" {
 				s.h = newServer(s.st.Backend, gofakes3.WithHostBucket(true))
+			}
+			if cfg.host == "skew" && s.st.Ext == nil {
+				s.h = withHeader{inner: newServerWith(s.st.Backend), k: "X-Amz-Date", v: fixedTime.Format("20060102T150405Z")}
+			}
+			if cfg.host == "cors" && s.st.Ext == nil {
+				s.h = withHeader{inner: newServer(s.st.Backend, gofakes3.WithInsecureCORS()), k: "Origin", v: "http://app.example.test"}
 			}
 			if cfg.host == "bases" && s.st.Ext == nil {
 				s.h = newServer(s.st.Backend, gofakes3.WithHostBucketBase("s3.example.com", "other.test"))
